@@ -26,7 +26,9 @@
 (***************************************************************************)
 EXTENDS Integers, Sequences, FiniteSets, TLC
 
-CONSTANTS Recorded       \* TRUE: states are Q-rounded records of the real code (quantisation tolerance on sums)
+CONSTANTS Recorded,      \* TRUE: states are Q-rounded records of the real code (quantisation tolerance on sums)
+          Fault          \* "none", or the name of a deliberately wrong Level-B variant (bin/selftest: each must
+                         \* break the invariant it is aimed at, i.e. the invariants are not vacuous)
 
 VARIABLES pol,           \* "RESGreedy" | "Proportional"
           units,         \* configuration: Seq([k |-> "C"|"B", c |-> rating class, s |-> start class])
@@ -59,7 +61,18 @@ SumTol == IF Recorded THEN (N \div 2) + 1 + (Abs(req) \div 33554432) ELSE 0
 
 Sum == acc => Abs(SumSeq(p) - req * den) <= SumTol * den
 
-RangePos == (acc /\ req > 0) => \A i \in 1..N : 0 <= p[i] /\ p[i] <= pub[i] * den
+(* Upper bound of a share: the code computes it as pub/total*req (consist_utils.rs:71, :195), which in   *)
+(* f64 can come out 1 ulp ABOVE pub when req = total; the unit accepts that because its own limit       *)
+(* checks carry an epsilon (almost_le with TOL = 1e-3: reversible_energy_storage.rs:6/:502,             *)
+(* fuel_converter.rs:5/:194). If pub itself sits 1 ulp below a rounding boundary of the 1/16 W lattice  *)
+(* (an off-lattice history), that ulp shows as ONE lattice unit after rounding. So: slack s = one unit  *)
+(* on records that are not exactly on the lattice, 0 on lattice records and on the model's own states   *)
+(* (far inside what TOL grants for pub >= 62.5 W, and the resolution of the projection below that).     *)
+(* The other order relations need no slack: signs survive rounding; the ratings are lattice points in   *)
+(* the whole domain (integer watts are never a rounding boundary), and -mpo <= rgn holds exactly in     *)
+(* f64 (mpo = max(p, -rgn), electric_drivetrain.rs:201), which monotone odd rounding preserves.          *)
+RangePosS(s) == (acc /\ req > 0) => \A i \in 1..N : 0 <= p[i] /\ p[i] <= (pub[i] + s) * den
+RangePos == RangePosS(0)
 
 RangeNeg == (acc /\ req < 0) => \A i \in 1..N : -(rat[i] * den) <= p[i] /\ p[i] <= 0
 
@@ -121,9 +134,17 @@ PosGreedy(kd, pb, a, r) ==
   THEN [den |-> a.reves, num |-> [i \in 1..Len(kd) |-> IF kd[i] = "B" THEN pb[i] * r ELSE 0]]
   ELSE [den |-> a.non_reves,
         num |-> [i \in 1..Len(kd) |-> IF kd[i] = "C" THEN pb[i] * d ELSE pb[i] * a.non_reves]]
+(* Fault "fuel_first": the order reversed, sum kept *)
+PosFuelFirst(kd, pb, a, r) ==
+  IF r <= a.non_reves
+  THEN [den |-> a.non_reves, num |-> [i \in 1..Len(kd) |-> IF kd[i] = "C" THEN pb[i] * r ELSE 0]]
+  ELSE [den |-> a.reves,
+        num |-> [i \in 1..Len(kd) |-> IF kd[i] = "B" THEN pb[i] * (r - a.non_reves) ELSE pb[i] * a.reves]]
 
 (* Proportional::solve_positive_traction *)
-PosProp(kd, pb, a, r) == [den |-> a.out_max, num |-> [i \in 1..Len(kd) |-> pb[i] * r]]
+PosProp(kd, pb, a, r) ==
+  [den |-> a.out_max,
+   num |-> [i \in 1..Len(kd) |-> IF Fault = "drop_last_share" /\ i = Len(kd) /\ i > 1 THEN 0 ELSE pb[i] * r]]
 
 (* solve_negative_traction: regen first (fraction capped at 1), the rest (regen deficit) spread over *)
 (* every unit in proportion to the drivetrain capacity it has left                                 *)
@@ -133,12 +154,16 @@ Neg(kd, rt, rg, a, r) ==
   IN IF d = 0
      THEN [den |-> a.regen_max, num |-> [i \in 1..Len(kd) |-> IF kd[i] = "B" THEN -(rg[i] * b) ELSE 0]]
      ELSE LET regen == [i \in 1..Len(kd) |-> IF kd[i] = "B" /\ a.regen_max # 0 THEN rg[i] ELSE 0]
-              spl   == [i \in 1..Len(kd) |-> rt[i] - regen[i]]
+              \* Fault "surplus_by_rating": headroom not reduced by the regeneration share
+              spl   == [i \in 1..Len(kd) |-> IF Fault = "surplus_by_rating" THEN rt[i] ELSE rt[i] - regen[i]]
               S     == SumSeq(spl)
           IN [den |-> S, num |-> [i \in 1..Len(kd) |-> -(spl[i] * d + regen[i] * S)]]
 
 SplitOf(po, kd, rt, pb, rg, a, r) ==
-  IF r > 0 THEN (IF po = "RESGreedy" THEN PosGreedy(kd, pb, a, r) ELSE PosProp(kd, pb, a, r))
+  IF r > 0 THEN (IF po = "RESGreedy"
+                 THEN (IF Fault = "fuel_first" /\ a.reves > 0 /\ a.non_reves > 0 THEN PosFuelFirst(kd, pb, a, r)
+                       ELSE PosGreedy(kd, pb, a, r))
+                 ELSE PosProp(kd, pb, a, r))
   ELSE IF r < 0 THEN Neg(kd, rt, rg, a, r)
   ELSE [den |-> 1, num |-> [i \in 1..Len(kd) |-> 0]]
 
@@ -152,7 +177,10 @@ Accepts(po, kd, rt, pb, rg, a, r) == Admit(a, r) /\ SplitOf(po, kd, rt, pb, rg, 
 
 (* ElectricDrivetrain::set_pwr_in_req: what is not regenerated is dynamic braking; a conventional *)
 (* unit's drivetrain never has a regeneration limit (pwr_mech_regen_max stays 0)                  *)
-MpoOf(kd, rg, num, d) == [i \in 1..Len(kd) |-> Max2(num[i], -((IF kd[i] = "B" THEN rg[i] ELSE 0) * d))]
+(* Fault "edrv_no_regen_clip": everything negative counted as regeneration                        *)
+MpoOf(kd, rg, num, d) ==
+  [i \in 1..Len(kd) |-> IF Fault = "edrv_no_regen_clip" THEN num[i]
+                        ELSE Max2(num[i], -((IF kd[i] = "B" THEN rg[i] ELSE 0) * d))]
 MdbOf(num, m) == [i \in 1..Len(num) |-> m[i] - num[i]]
 
 ----------------------------------------------------------------------------
